@@ -340,7 +340,26 @@ def process_template(path, crate, repo, gen=None, depth=0):
 def generate(unit, crate, repo):
     path = os.path.join(VERIF, 'units', unit + '.vrs')
     gen = process_template(path, crate, repo)
-    # D4: constants mentioned by extracted functions and declared nowhere in the unit
+    # D4: constants mentioned by extracted functions and declared nowhere in the unit -- transitively: a constant defined in terms of
+    # other constants of the crate (`const A: u64 = B - 1;`) pulls those in as well (also for `//@const` items)
+    for _round in range(4):
+        full = '\n'.join(gen.lines)
+        const_texts = re.findall(r'^\s*pub const [A-Z][A-Z0-9_]*\s*:[^;]*;', full, re.M) + [t for t, _ in gen.auto_consts.values()]
+        grew = False
+        for ct in const_texts:
+            for cname in set(re.findall(r'\b[A-Z][A-Z0-9_]{2,}\b', ct.split('=', 1)[1] if '=' in ct else '')):
+                if cname in gen.auto_consts or re.search(r'\b(const|static) ' + cname + r'\b', full):
+                    continue
+                hits = crate.find_const_anywhere(cname)
+                if len(hits) == 1:
+                    txt_c = re.sub(r'\bpub\(crate\)\s+', 'pub ', X.item_text(X.strip_attrs(hits[0][1])))
+                    if not txt_c.lstrip().startswith('pub '):
+                        txt_c = 'pub ' + txt_c.lstrip()
+                    gen.auto_consts[cname] = (txt_c, f'/repo {hits[0][0]}::{cname}')
+                    gen.rule_counts['D4'] = gen.rule_counts.get('D4', 0) + 1
+                    grew = True
+        if not grew:
+            break
     full = '\n'.join(gen.lines)
     for cname, (txt_c, origin_c) in sorted(gen.auto_consts.items()):
         if not re.search(r'\b(const|static) ' + cname + r'\b', full):
